@@ -3,6 +3,8 @@
 // next to their value, so that the sources handed over as bare references can be identified.
 #ifndef VERIF_TRACE_KERNEL_HPP
 #define VERIF_TRACE_KERNEL_HPP
+#include <cstdio>
+#include <cstdlib>
 #include <string>
 #include <vector>
 #include <algorithm>
@@ -72,20 +74,27 @@ class TraceKernel {
         for(long j = 0 ; j < D ; ++j) f *= S.chi1(int(j), o[j] * scale);
         return f;
     }
+    // the kernel is stateful on purpose: an executor that hands a task a kernel object which does not exist (an index past the
+    // per-worker array) or which is already destroyed reads this member (ASan) or finds it wrong
+    unsigned long alive = 0x7ace7ace7ace7aceUL;
+    void touch() const {
+        if(alive != 0x7ace7ace7ace7aceUL){ std::fprintf(stderr, "TraceKernel: the kernel object passed to the operator is not a live kernel\n"); std::fflush(stderr); std::abort(); }
+    }
 public:
     using SpacialConfiguration = TbfSpacialConfiguration<RealType, SpaceIndexType::Dim>;
     explicit TraceKernel(const SpacialConfiguration&){}
+    ~TraceKernel(){ alive = 0; }
     TraceKernel(const TraceKernel&) = default;
     TraceKernel& operator=(const TraceKernel&) = default;
 
     template <class Symb, class Parts, class Leaf>
-    void P2M(const Symb& symb, const long idx[], const Parts&, const long n, Leaf& leaf) const {
+    void P2M(const Symb& symb, const long idx[], const Parts&, const long n, Leaf& leaf) const { touch();
         unsigned long s = 0; for(long k = 0 ; k < n ; ++k) s += trace_sink()->weight(idx[k]);
         leaf.val += s;
         trace_sink()->add("P2M " + std::to_string(symb.spaceIndex) + " c=" + coordstr(symb.boxCoord) + " t=" + tagstr(leaf) + " : " + pidstr(idx, n));
     }
     template <class Symb, class Cont, class Cell>
-    void M2M(const Symb& symb, const long level, const Cont& children, Cell& parent, const long pos[], const long n) const {
+    void M2M(const Symb& symb, const long level, const Cont& children, Cell& parent, const long pos[], const long n) const { touch();
         std::vector<std::pair<std::string,long>> cs;
         for(long k = 0 ; k < n ; ++k){
             const auto& c = children[k].get();
@@ -104,7 +113,7 @@ public:
         trace_sink()->add(s);
     }
     template <class Symb, class Cont, class Cell>
-    void M2L(const Symb& symb, const long level, const Cont& srcs, const long pos[], const long n, Cell& target) const {
+    void M2L(const Symb& symb, const long level, const Cont& srcs, const long pos[], const long n, Cell& target) const { touch();
         std::vector<std::pair<std::string,long>> cs;
         for(long k = 0 ; k < n ; ++k){
             const auto& c = srcs[k].get();
@@ -122,7 +131,7 @@ public:
         trace_sink()->add(s);
     }
     template <class Symb, class Cell, class Cont>
-    void L2L(const Symb& symb, const long level, const Cell& parent, Cont& children, const long pos[], const long n) const {
+    void L2L(const Symb& symb, const long level, const Cell& parent, Cont& children, const long pos[], const long n) const { touch();
         std::vector<std::pair<std::string,long>> cs;
         for(long k = 0 ; k < n ; ++k){ auto& c = children[k].get(); c.val += parent.val; cs.push_back({tagstr(c), pos[k]}); }
         std::sort(cs.begin(), cs.end());
@@ -131,7 +140,7 @@ public:
         trace_sink()->add(s);
     }
     template <class Symb, class Leaf, class Vals, class Rhs>
-    void L2P(const Symb& symb, const Leaf& leaf, const long idx[], const Vals&, Rhs& rhs, const long n) const {
+    void L2P(const Symb& symb, const Leaf& leaf, const long idx[], const Vals&, Rhs& rhs, const long n) const { touch();
         for(long k = 0 ; k < n ; ++k) rhs[0][k] += leaf.val;
         trace_sink()->add("L2P " + std::to_string(symb.spaceIndex) + " c=" + coordstr(symb.boxCoord) + " t=" + tagstr(leaf) + " : " + pidstr(idx, n));
     }
@@ -168,7 +177,7 @@ public:
                           + " sc=" + coordstr(ssymb.boxCoord) + " tc=" + coordstr(tsymb.boxCoord) + " : " + pidstr(sidx, ns) + " : " + pidstr(tidx, nt));
     }
     template <class Symb, class Vals, class Rhs>
-    void P2PInner(const Symb& symb, const long idx[], const Vals&, Rhs& rhs, const long n) const {
+    void P2PInner(const Symb& symb, const long idx[], const Vals&, Rhs& rhs, const long n) const { touch();
         unsigned long w = 0;
         for(long k = 0 ; k < n ; ++k) w += trace_sink()->weight(idx[k]);
         for(long k = 0 ; k < n ; ++k) rhs[0][k] += w - trace_sink()->weight(idx[k]);
